@@ -481,6 +481,19 @@ def run(ctx):
 
     conc_f = [pool.submit(conc, (c, race)) for race in (False, True) for c in combos]
 
+    # ---- 3b. selections at full speed from 32 goroutines, nothing recorded in between (with and without an updater):
+    # the recorder of the scenario above keeps selections apart; what shows only when many of them are inside the selector
+    # at the same instant (a generator or cursor shared without a lock) shows here, as a panic or a foreign endpoint
+    def stress():
+        out = os.path.join(cdir, "stress.ndjson")
+        rc, so, se = sh([exe, "stress", "-out", out, "-seed", str(ctx.seed), "-ms", str(ctx.pick(250, 2000)),
+                         "-ms-random", str(ctx.pick(2500, 20000))], timeout=1500, check=False)
+        if rc != 0:
+            raise Inconclusive("stress driver failed: rc=%d %s" % (rc, se[-2000:]))
+        return [json.loads(l) for l in open(out)]
+
+    stress_f = pool.submit(stress)
+
     # ---- 2b. drive the histories and judge them
     fam_scripts = {}
     gen_stats = {}
@@ -645,6 +658,22 @@ def run(ctx):
     for f in conc_f:
         key, out = f.result()
         trace_sets[key] = prep_traces(out)
+    stress_recs = stress_f.result()
+    stress_sels = sum(r["sels"] for r in stress_recs)
+    if len(stress_recs) != 20 or any(r["sels"] == 0 and not r["p"] for r in stress_recs):
+        raise Inconclusive("stress stage: %d records, some without selections" % len(stress_recs))
+    for r in stress_recs:
+        sn = sname(r["s"], r["wt"])
+        how = "with" if r["upd"] else "without"
+        if r["p"]:
+            ctx.violate("C13:panic:%s:%s:concurrent-selections" % (r["sp"] or "?", msg_class(r["p"])),
+                        "%s panicked (%s) on the %s selector while 32 goroutines selected at full speed %s concurrent updates "
+                        "(after %d selections)" % (r["sp"], r["p"], sn, how, r["sels"]), {"kind": "stress", "record": r})
+        if r["foreign"]:
+            ctx.violate("C13:%s:non-member:concurrent-selections" % sn,
+                        "%d of %d selections on the %s selector returned an endpoint outside the universe while 32 goroutines "
+                        "selected at full speed %s concurrent updates" % (r["foreign"], r["sels"], sn, how),
+                        {"kind": "stress", "record": r})
     all_runs = [(key, i, t) for key, ts in sorted(trace_sets.items()) for i, t in enumerate(ts)]
     nsh = ctx.pick(2, 4)
     tr_cfg = open(os.path.join(VERIF, "spec", SPEC, "Trace.cfg")).read()
@@ -886,6 +915,36 @@ def run(ctx):
     race_summary = {}
     for x in race_reports:
         race_summary[x] = race_summary.get(x, 0) + 1
+    # a data race inside a selector is an observation -- and a lead: the strategy it names is stressed on until the race
+    # does damage (a panic, a foreign endpoint) or the budget is used up; only the damage is a verdict
+    PKG = {"random.": "random", "rand.": "random", "roundrobin.": "rr", "modhash.": "modhash", "consistenthash.": "conhash"}
+    leads = sorted({v for x in race_summary for k, v in PKG.items() if x.startswith(k)})
+    chased = {}
+    for strat in leads:
+        if any(r["p"] or r["foreign"] for r in stress_recs if r["s"] == strat):
+            continue
+        out = os.path.join(cdir, "stress-%s.ndjson" % strat)
+        per = ctx.pick(2500, 5000)
+        rc, so, se = sh([exe, "stress", "-only", strat, "-out", out, "-seed", str(ctx.seed + 50), "-ms", str(per), "-ms-random", str(per),
+                         "-rounds", str(ctx.pick(4, 15)), "-stop-on-panic"], timeout=1500, check=False)
+        if rc != 0:
+            raise Inconclusive("stress driver failed: rc=%d %s" % (rc, se[-2000:]))
+        more = [json.loads(l) for l in open(out)]
+        chased[strat] = {"runs": len(more), "selections": sum(r["sels"] for r in more), "damage": False}
+        for r in more:
+            sn = sname(r["s"], r["wt"])
+            how = "with" if r["upd"] else "without"
+            if r["p"]:
+                chased[strat]["damage"] = True
+                ctx.violate("C13:panic:%s:%s:concurrent-selections" % (r["sp"] or "?", msg_class(r["p"])),
+                            "%s panicked (%s) on the %s selector while 32 goroutines selected at full speed %s concurrent updates "
+                            "(the race detector had reported a data race there; run %d of the follow-up stress)"
+                            % (r["sp"], r["p"], sn, how, len(more)), {"kind": "stress", "record": r})
+            if r["foreign"]:
+                chased[strat]["damage"] = True
+                ctx.violate("C13:%s:non-member:concurrent-selections" % sn,
+                            "%d of %d selections on the %s selector returned an endpoint outside the universe (follow-up stress after a "
+                            "data race report)" % (r["foreign"], r["sels"], sn), {"kind": "stress", "record": r})
     if race_reports:
         ctx.notes.append("race detector reported %d data race(s) in the concurrent scenario (observation, not a verdict): %s"
                          % (len(race_reports), race_summary))
@@ -936,6 +995,11 @@ def run(ctx):
         "concurrent": {"runs": truns, "events": tevents, "begins_while_another_operation_pending": overlap,
                        "tlc_states": tstates, "combos": ["%s%s" % (s, "+weights" if wt else "") for s, wt in combos],
                        "builds": ["plain", "race"]},
+        "stress": {"runs": len(stress_recs), "selections": stress_sels, "goroutines": 32,
+                   "rule": "selections at full speed with nothing recorded in between, each strategy x weights x with/without an "
+                           "updater; verdicts: a panic, an endpoint outside the universe; a strategy named by a data race report is "
+                           "stressed on (follow_up) until the race does damage or the budget is used up",
+                   "follow_up": chased},
         "race_detector": {"reports": len(race_reports), "by_function": race_summary,
                           "note": "observation only; a violation needs a wrong result or a crash"},
         "refinement_observations": robs,
